@@ -331,6 +331,19 @@ def run(tier, replay):
     ctx.cov["distinct_nontrivial"] = nontrivial
     r = vlib.run_growth(ctx, "C17 input normalisation (case / padding / look-alikes)", lenient_pass, auth, first_lines)
     ctx.add_part("growth: lenient concretisations", **(r or {"result": "did not complete"}))
+    # 2c. what "removed" means for any identifier (the uid and its look-alikes): after remove_user(x) = Ok, x does not exist and
+    #     does not verify, and if x had been accepted as the user, the user's token is dead; after Err nothing changed.  This is
+    #     within the statement (a removed user's password and token are dead) whatever the tree's policy on look-alikes is.
+    p = run_bin(auth, ["removed"], timeout=600)
+    rs = [x for x in parse_jsonl(p.stdout) if x.get("summary")]
+    if p.returncode != 0 or not rs:
+        raise vlib.ToolError("auth removed failed rc=%s: %s" % (p.returncode, p.stderr[-1000:]))
+    ctx.cov["evaluations"] += rs[0]["cases"]
+    ctx.add_part("removal of look-alike identifiers", cases=rs[0]["cases"], inconsistent=len(rs[0]["bad"]))
+    if rs[0]["bad"]:
+        b = rs[0]["bad"][0]
+        ctx.violation("remove_user(x) with x = %s: %s (%d such case(s))" % (b.get("x_is", "?"), "; ".join(b.get("what", [b.get("what")]) if isinstance(b.get("what"), list) else [str(b.get("what"))]), len(rs[0]["bad"])),
+                      {"kind": "auth-removed", "bad": rs[0]["bad"]})
 
     # ---------------------------------------------------------------- 3. random histories validated by TLC
     n = 2000 if thorough else 150
